@@ -129,7 +129,7 @@ def _rot_near(c):
     return out
 
 
-family("rotary", "thorough",
+family("rotary", "quick",
        [("B", [1, 2], "all"), ("S", [3, 1], "all"),
         ("Dh", [4, 8, 6, 5], "dev"), ("rd", ["full", "2", "4"], "dev"),
         ("cos_src", ["inv_freq", "input"], "dev"),
@@ -271,7 +271,7 @@ SDPA_PARAMS = [
     ("nan_guard", [True, False], "dev"), ("sm_axis", [-1, 3, 2], "dev"), ("v_batch", ["B", "1"], "dev"),
 ]
 
-family("sdpa", "thorough", SDPA_PARAMS, build_sdpa, lambda c: [("sdpa+sdpa_via_mha", ["sdpa", "sdpa_via_mha"])],
+family("sdpa", "quick", SDPA_PARAMS, build_sdpa, lambda c: [("sdpa+sdpa_via_mha", ["sdpa", "sdpa_via_mha"])],
        valid=_sdpa_valid, near=_sdpa_near, canon=_sdpa_canon)
 
 # ---------------------------------------------------------------------------------------------
@@ -400,7 +400,7 @@ def _mha_near(c):
     return out
 
 
-family("mha", "thorough",
+family("mha", "quick",
        [("B", [1, 2], "all"), ("S", [3, 1], "all"),
         ("H", [2, 1], "dev"), ("Dh", [4, 8], "dev"), ("Skv", ["S", "4"], "dev"),
         ("dtype", ["f32", "f16"], "dev"),
@@ -409,7 +409,7 @@ family("mha", "thorough",
         ("kv", ["BHSd", "BSHd", "cross4d"], "dev"), ("reshape", ["00HD", "B-1HD"], "dev"),
         ("rotary", [False, True, "interleaved"], "dev"), ("past", [False, True], "dev"),
         ("scale_where", ["post_mul", "post_div", "pre_mul", "q_mul", "none"], "dev"),
-        ("scale_val", ["default", "custom", "near"], "dev"),
+        ("scale_val", ["default", "custom", "near", "unit"], "dev"),
         ("key_form", ["BHSd", "3d"], "dev"),
         ("mask", ["none", "B1SS", "11SS", "BHSS", "SS", "B11S", "1S", "boolB1SS"], "dev"),
         ("mask_vals", ["finite", "rowinf"], "dev"),
@@ -471,14 +471,14 @@ def build_mha_bias(c):
     return g.model(), g.feeds_spec
 
 
-family("mha_bias", "thorough",
+family("mha_bias", "quick",
        [("B", [1, 2], "all"), ("S", [3, 1], "all"), ("Dh", [4, 8], "all"),
         ("bias", ["qkv", "q", "k", "v", "qk", "none"], "dev"),
         ("bias_shape", ["D", "11D", "1", "SD"], "dev"), ("bias_kind", ["init", "node", "input"], "dev"),
         ("ob", [False, True], "dev"), ("dtype", ["f32", "f16"], "dev"),
         ("Skv", ["S", "4"], "dev"), ("Dv", ["D", "2H"], "dev"),
         ("mask", ["none", "B1SS", "11SS"], "dev"), ("past", [False, True], "dev"),
-        ("scale_attr", ["absent", "0.25"], "dev"), ("sym", [False, True], "dev")],
+        ("scale_attr", ["absent", "0.25", "1.0"], "dev"), ("sym", [False, True], "dev")],
        build_mha_bias, lambda c: [("mha_bias", ["mha_bias"])],
        valid=lambda c: not (c["bias"] == "none" and (c["bias_shape"] != "D" or c["ob"])),
        near=lambda c: [f"bias_shape={c['bias_shape']}"] if c["bias_shape"] != "D" else [],
@@ -515,7 +515,7 @@ def build_mha_scale(c):
     return g.model(), g.feeds_spec
 
 
-family("mha_scale", "thorough",
+family("mha_scale", "quick",
        [("B", [1, 2], "all"), ("S", [3, 1], "all"), ("Dh", [4, 8], "all"),
         ("scale", ["0.5", "2.0", "0.0", "-1.0"], "dev"),
         ("scale_shape", ["0d", "1", "111", "1111", "D"], "dev"),
@@ -596,12 +596,12 @@ def _att_valid(c):
     return True
 
 
-family("attention", "thorough",
+family("attention", "quick",
        [("B", [1, 2], "all"), ("S", [3, 1], "all"), ("Dh", [4, 8], "all"), ("form", ["slice", "no_slice"], "all"),
         ("past", [False, True], "dev"), ("bias", ["Dqkv", "none", "1Dqkv"], "dev"),
         ("slices", ["ok", "end_max", "gap", "swapped"], "dev"), ("slice_steps", [False, True], "dev"),
         ("Dv", ["D", "2H"], "dev"), ("w_kind", ["init", "input"], "dev"),
-        ("mask", ["none", "B1SS", "11SS", "BHSS"], "dev"), ("scale_attr", ["absent", "0.25"], "dev"),
+        ("mask", ["none", "B1SS", "11SS", "BHSS"], "dev"), ("scale_attr", ["absent", "0.25", "1.0"], "dev"),
         ("dtype", ["f32", "f16"], "dev"), ("sym", [False, True], "dev")],
        build_attention, lambda c: [("attention", ["attention"])], valid=_att_valid,
        canon=lambda kind, fusion, c, detail: "past+attention_bias"
@@ -652,7 +652,7 @@ def build_packed_qkv(c):
     return g.model(), g.feeds_spec
 
 
-family("packed_qkv_gqa", "thorough",
+family("packed_qkv_gqa", "quick",
        [("B", [1, 2], "all"), ("S", [3, 1], "all"), ("heads", [[2, 1], [2, 2], [4, 2]], "all"),
         ("Dh", [16, 32], "dev"), ("P", [2, 0, 5], "dev"),
         ("slices", ["ok", "end_max", "gap", "swapped"], "dev"),
@@ -804,7 +804,7 @@ def _gqa_valid(c):
     return True
 
 
-family("gqa", "thorough",
+family("gqa", "quick",
        [("B", [1, 2], "all"), ("S", [3, 1], "all"), ("heads", [[2, 1], [2, 2], [4, 2]], "all"),
         ("with_past", [True, False], "dev"), ("P", [2, 5], "dev"),
         ("norm", ["none", "transpose_first", "norm_first"], "dev"),
